@@ -51,7 +51,7 @@ def build_tools(rep):
     ok = True
     for name in ('l0', 'live'):
         src = os.path.join(V, 'harness', 'cmd', name)
-        if not os.path.isdir(src):
+        if not os.path.exists(os.path.join(src, 'main.go')):
             continue
         rc, out = sh(['go', 'build', '-tags', 'verif', '-o', os.path.join(BUILD, name), './cmd/' + name],
                      cwd=os.path.join(V, 'harness'), env=GOENV, timeout=900)
@@ -75,7 +75,7 @@ def theorem_names(module):
     except OSError:
         return out
     for i, l in enumerate(lines):
-        m = re.match(r'^\s*(?:private\s+)?theorem\s+([^\s:({\[]+)', l)
+        m = re.match(r'^theorem\s+([^\s:({\[]+)', l)
         if m:
             out.append([ns + '.' + m.group(1), i + 1, len(lines)])
     for k in range(len(out) - 1):
@@ -207,7 +207,12 @@ def absorb_l0(rep, results, engine, sample=True):
         elif agree == 'DISAGREE':
             rep.disagreements.append(dict(case=case, impl=impl, model=model, engine=engine))
         if oracle.startswith('FAIL:'):
-            rep.failures.append(dict(case=case, impl=impl, model=model, clause=oracle[5:], engine=engine))
+            only = cfg.get('clauses')
+            if only and not re.search(only, oracle[5:]):
+                # a clause that belongs to another property's subject (e.g. a listed C18 finding seen by C05's generators)
+                rep.extra['failures_of_other_properties_clauses'] = rep.extra.get('failures_of_other_properties_clauses', 0) + 1
+            else:
+                rep.failures.append(dict(case=case, impl=impl, model=model, clause=oracle[5:], engine=engine))
     if sample:
         seen = set()
         for case, impl, (agree, model, oracle, branch) in results:
